@@ -5,6 +5,7 @@ RULES = {
     "P1": rules_state.rule_P1,
     "P2": rules_state.rule_P2,
     "P2b": rules_state.rule_P2b,
+    "M1": rules_state.rule_M1,
     "N1": rules_arith.rule_N1,
     "N2": rules_arith.rule_N2,
     "E1": rules_except.rule_E1,
@@ -58,9 +59,10 @@ PROPS = {
     "C02": {
         "id": "C02",
         "title": "Inverse transforms invert the forward transforms",
-        "rules": ["A1b", "A1", "G7", "A2", "R2"],
+        "rules": ["A1b", "A1", "G7", "A2", "R2", "M1"],
         "clause": "every even n accepted by irfft/IfftPlanR satisfies what the twiddle-table helper believes about n, and odd n is "
-                  "rejected by exception before any table is sized or indexed (member initialisers included)",
+                  "rejected by exception before any table is sized or indexed (member initialisers included); no function of the "
+                  "transform and stft files keeps a value between calls under a key that omits an argument it was computed from (M1)",
         "not_decided": "the inversion identities ifft(fft(x)) = x, irfft(rfft(x)) = x as numerics; everything about stft/istft",
         "explanation": "A1 substitutes the actual arguments into each assert/DSPLIB_ASSUME of the ifft helpers and requires a live "
                        "check at the public call site to entail it (e % k == 0 entails e % k' == 0 iff k' | k, interval "
@@ -139,12 +141,13 @@ PROPS = {
     "C08": {
         "id": "C08",
         "title": "Multirate converters equal the zero-stuff/filter/decimate definition",
-        "rules": ["R1", "H1", "S2", "R2", "N4", "N5", "N6"],
+        "rules": ["R1", "H1", "S2", "R2", "N4", "N5", "N6", "P2", "M1"],
         "clause": "the documented rejections and the identity case: FIRDecimator and FIRRateConverter reject (by a live throwing check "
                   "on every path to a normal return) frames whose length is not a multiple of the decimation factor; resample returns "
                   "its input unchanged when the reduced ratio is 1; a rejected frame leaves the converter untouched (no member is written on "
                   "a path that has not yet passed the check); each converter's history is handed over from its previous contents "
-                  "and the input frame and is used by the output",
+                  "and the input frame and is used by the output; the converters' files define no mutable static storage (two converters "
+                  "are two independent chains) and keep no value between calls under an incomplete key (P2, M1)",
         "not_decided": "sample-exact agreement with the textbook chain for all L, M, h (branch schedule, offsets, gains, delay "
                        "compensation, output length)",
         "explanation": "R1 is an interprocedural must-pass-through analysis over the CFG (a check inside a callee that lies on the "
@@ -171,13 +174,14 @@ PROPS = {
     "C10": {
         "id": "C10",
         "title": "Transform results do not depend on call history; plan caching is transparent",
-        "rules": ["K1", "K2", "K3", "P1", "P2"],
+        "rules": ["K1", "K2", "K3", "P1", "P2", "M1"],
         "clause": "cached plans are immutable (const operations write no object state) and are built deterministically from their "
                   "key (no mutable shared statics); lookup, creation and insertion use the same unmodified key and the inserted "
                   "value is the plan built for it; plans are handed out and held by shared ownership, so an evicted plan stays "
                   "alive; list and map updates of the LRU are paired in every control region; both caches have the configured "
                   "capacity and every inserting member evicts against it with a size test that is not stale (nothing that can change "
-                  "the cache - a container write or a caller-supplied callable - runs between the test and its use)",
+                  "the cache - a container write or a caller-supplied callable - runs between the test and its use); any other value a function "
+                  "keeps in static / thread_local storage is refreshed under a condition that mentions every argument it was computed from (M1)",
         "not_decided": "the recency order as a run-time history property beyond its two structural halves (a hit moves exactly the entry "
                        "found to the front; the evicted entry is the tail of the list), which are decided",
         "explanation": "Any plan returned for n was built by the factory for n (K1), is immutable (P1) and was built "
@@ -250,8 +254,9 @@ PROPS = {
     "C19": {
         "id": "C19",
         "title": "Noise injection and SNR/THD measurement are calibrated; random streams reproduce",
-        "rules": ["P2b", "N5", "N6"],
-        "clause": "one thread_local engine is the only entropy source of every generator and of awgn (reproducibility after rng(seed), per-thread independence)",
+        "rules": ["P2b", "N5", "N6", "M1"],
+        "clause": "one thread_local engine is the only entropy source of every generator and of awgn (reproducibility after rng(seed), per-thread independence); "
+                  "no measurement function keeps a value between calls under a key that omits an argument it was computed from (M1)",
         "not_decided": "noise power calibration, SNR/THD/SINAD accuracy, randi bounds",
         "explanation": "P2b enumerates every static engine object, every local engine, every distribution draw site and every call "
                        "of a known entropy source in all library function bodies.",
